@@ -63,6 +63,7 @@ Spec == Init /\ [][Next]_vars
 
 \* No two completed calls in the process received the same name.
 Unique == ~dup
-\* every name was a value of the counter
+\* every name was a value of the counter (a property of the model with the plain fetch_add program only: the name may be
+\* any injective function of the register, so this is not checked against extracted programs)
 Sane == \A v \in names : v < counter \/ dup
 =============================================================================
